@@ -320,6 +320,22 @@ LPIWishart(nu, s11, s12, s22, x11, x12, x22) ==
   Sub(Sub(Sub(Sub(Mul(Div(nu, Two), Log(Det2(s11, s12, s22))), Mul(nu, Log(Two))), MeaningP("Mlgamma", I(2), Div(nu, Two))),
           Mul(Div(Add(nu, QI(3)), Two), Log(Det2(x11, x12, x22)))), Mul(Half, tr))
 
+(* KNOWN DEVIATION (finding C14-iwishart-trace): the code multiplies S and   *)
+(* X^-1 element-wise before taking the trace, i.e. it uses                  *)
+(* sum_i S_ii (X^-1)_ii instead of tr(S X^-1).  The repository's own test   *)
+(* pins the deviating value, so the defect is listed, not repaired.  An     *)
+(* observation that differs from the contract must equal this term to be    *)
+(* classified as the known finding.                                          *)
+KnownDeviation_IWishartTrace(nu, s11, s12, s22, x11, x12, x22) ==
+  LET tr == Div(Add(Mul(s11, x22), Mul(s22, x11)), Det2(x11, x12, x22)) IN
+  Sub(Sub(Sub(Sub(Mul(Div(nu, Two), Log(Det2(s11, s12, s22))), Mul(nu, Log(Two))), MeaningP("Mlgamma", I(2), Div(nu, Two))),
+          Mul(Div(Add(nu, QI(3)), Two), Log(Det2(x11, x12, x22)))), Mul(Half, tr))
+Deviations(f, v) ==
+  IF f = "iwishart"
+  THEN <<[name |-> "hadamard_trace",
+          lp |-> KnownDeviation_IWishartTrace(P(1), P(2), P(3), P(4), XV(f, 1), XV(f, 2), XV(f, 3))]>>
+  ELSE <<>>
+
 (* log(w1/(w1+w2) exp(l1) + w2/(w1+w2) exp(l2)) *)
 Mix2(w1, w2, l1, l2) == Log(Add(Mul(Div(w1, Add(w1, w2)), Exp(l1)), Mul(Div(w2, Add(w1, w2)), Exp(l2))))
 Mix1(w1, w2, l1)     == Add(Log(Div(w1, Add(w1, w2))), l1)
@@ -497,7 +513,7 @@ FarExp(f, p) == CASE f \in {"pareto", "gpareto", "gev", "powerlaw"} -> 30
 (* ------------------------------------------------------------ printing *)
 VarRec(f, v) == [v |-> v, lp |-> LP(f, v),
                  dlp |-> [i \in 1..Len(DiffVars(f)) |-> D(LP(f, v), DiffVars(f)[i])],
-                 cdf |-> CDF(f, v)]
+                 cdf |-> CDF(f, v), dev |-> Deviations(f, v)]
 FamRec(f) == [k |-> "fam", fam |-> f, np |-> NP(f), xdim |-> XDim(f), params |-> PL[f], nvalid |-> NValid[f],
               variants |-> [i \in 1..Len(Variants(f)) |-> VarRec(f, Variants(f)[i])],
               pvec |-> PVec(f), dv |-> DiffVars(f), hascdf |-> HasCdf(f),
